@@ -76,13 +76,35 @@ def fr(x):
     return Fraction(x)
 
 
+def qf(x):
+    """Coq literal of a binary64 value, exactly: fl m e = m * 2^e (Corr/C15Corr.v)."""
+    f = fr(x)
+    if f == 0:
+        return Raw("(fl 0 0)")
+    e = -(f.denominator.bit_length() - 1)
+    m = f.numerator
+    while m % 2 == 0 and e < 0:
+        m //= 2
+        e += 1
+    assert Fraction(m) * Fraction(2) ** e == f
+    return Raw(f"(fl ({m}) ({e}))")
+
+
+def qq(fraction):
+    """dyadic rationals as fl literals, others as Qmake."""
+    d = fraction.denominator
+    if d & (d - 1) == 0:
+        return qf(float(fraction)) if Fraction(float(fraction)) == fraction else Qc(fraction)
+    return Qc(fraction)
+
+
 def observe(b):
     return dict(coeffs=[float(c) for c in b.coeffs], kappa=float(b.kappa),
                 probs=[float(p) for p in np.asarray(b.probabilities)], overhead=float(b.overhead))
 
 
 def coq_obs(o):
-    return ([Qc(fr(c)) for c in o["coeffs"]], Qc(fr(o["kappa"])), [Qc(fr(p)) for p in o["probs"]], Qc(fr(o["overhead"])))
+    return ([qf(c) for c in o["coeffs"]], qf(o["kappa"]), [qf(p) for p in o["probs"]], qf(o["overhead"]))
 
 
 def theta_prime(name, theta):
@@ -152,9 +174,9 @@ def lams_of(abc):
 def coq_kak_case(info, o):
     abc = info["theta_passed"]
     lams = lams_of(abc)
-    cs = [(Qc(fr(math.cos(l))), Qc(fr(math.sin(l)))) for l in lams]
-    u = [(Qc(fr(z[0])), Qc(fr(z[1]))) for z in info["u"]]
-    return ([Qc(fr(t)) for t in abc], [Qc(fr(l)) for l in lams], cs, u, coq_obs(o))
+    cs = [(qf(math.cos(l)), qf(math.sin(l))) for l in lams]
+    u = [(qf(z[0]), qf(z[1])) for z in info["u"]]
+    return ([qf(t) for t in abc], [qf(l) for l in lams], cs, u, coq_obs(o))
 
 
 # ------------------------------------------------------------------------------------------------
@@ -302,6 +324,7 @@ def dyadic_vec(rng, n):
 
 def generate(rng, tier, outdir):
     w = CaseWriter(outdir, IMPORTS, CASE_TYPES)
+    w.SHARD = 100
     quick = tier == "quick"
     n_near = 10 if quick else 120
     n_rand = 14 if quick else 400
@@ -312,7 +335,7 @@ def generate(rng, tier, outdir):
         case = run_named(dict(kind="named", name=name, theta=theta, sub=sub))
         aff = AFF.get(name)
         w.add("named", "chk_named",
-              (Raw(f'"{name}"'), Opt((Qc(aff[0]), Qc(aff[1]))) if aff else Opt(None), Qc(c), Qc(s), coq_obs(case["impl"])),
+              (Raw(f'"{name}"'), Opt((Qc(aff[0]), Qc(aff[1]))) if aff else Opt(None), qq(c), qq(s), coq_obs(case["impl"])),
               case, nontrivial=(name in PARAM), key=(name, theta))
         w.count("named.name", name)
         w.count("named.sub", sub)
@@ -358,7 +381,7 @@ def generate(rng, tier, outdir):
                 ok = abs(a - b) <= 1e-9 and abs(c) <= 1e-9 and abs(abs(math.sin(2 * a)) - abs(fam_sin)) <= 1e-9
             w.contract("O-KAK: Weyl coordinates of rzx / xx_plus_yy / xx_minus_yy as documented", ok)
             fc = dict(case, kind="kakfam")
-            w.add("kakfam", "chk_kak_family", (fam_kind, Qc(fr(fam_sin)), Qc(fr(case["impl"]["kappa"]))), fc,
+            w.add("kakfam", "chk_kak_family", (fam_kind, qf(fam_sin), qf(case["impl"]["kappa"])), fc,
                   nontrivial=True, key=repr((case["gate"], case["theta"], case.get("beta"))))
             w.count("kakfam.judge", "violates" if judge(fc)["violates"] else "ok")
         return case
@@ -394,7 +417,7 @@ def generate(rng, tier, outdir):
             else:
                 c, s = Fraction(0), Fraction(0)
             cc = dict(case, kind="conj")
-            w.add("conj", "chk_conj", (Raw(f'"{name}"'), Qc(c), Qc(s), Qc(fr(case["impl"]["kappa"]))), cc,
+            w.add("conj", "chk_conj", (Raw(f'"{name}"'), qq(c), qq(s), qf(case["impl"]["kappa"])), cc,
                   nontrivial=True, key=repr((name, theta, r)))
             w.count("conj.name", name)
             w.count("conj.judge", "violates" if judge(cc)["violates"] else "ok")
@@ -439,7 +462,7 @@ def generate(rng, tier, outdir):
             os_.append((bool(s["refused"]) if "crashed" not in s else False,
                         Opt(coq_obs(s["obs"])) if s["obs"] is not None else Opt(None)))
         w.add("basis", "chk_basis",
-              ([int(x) for x in arities], [Qc(fr(x)) for x in c0], [[Qc(fr(x)) for x in c] for c in ops], os_),
+              ([int(x) for x in arities], [qf(x) for x in c0], [[qf(x) for x in c] for c in ops], os_),
               case, nontrivial=(not steps[0]["refused"] and len(ops) > 0))
         w.count("basis.first", "crashed" if crashed else ("refused" if steps[0]["refused"] else "ok"))
         w.count("basis.n_ops", len(ops))
